@@ -193,6 +193,23 @@ def fingerprint(text):
     return hashlib.sha1(text.encode('utf8')).hexdigest()[:12]
 
 
+_T0 = time.time()
+
+
+def budget_s():
+    """wall-time budget left for dispatching new obligations (thorough tier; VF_BUDGET_S overrides, 0 = unlimited)"""
+    v = os.environ.get('VF_BUDGET_S')
+    if v is not None:
+        total = float(v)
+    elif os.environ.get('VF_TIER') == 'thorough':
+        total = 1500.0
+    else:
+        return None
+    if total <= 0:
+        return None
+    return max(1.0, total - (time.time() - _T0))
+
+
 def only(conds):
     """development aid: VF_ONLY=<substring> restricts a run to the obligations whose id contains it"""
     pat = os.environ.get('VF_ONLY')
